@@ -134,6 +134,7 @@ pub fn run_case(out: &mut Out, case: &Case) {
     wrong_key.load_from_array(&[0x5au8; AEAD_CANON_KEY_LEN]);
     let runner = matter.transport_runner(&crypto);
 
+    let mut kept = 0u32;
     for op in &case.ops {
         let mut it = op.split_whitespace();
         let src: u64 = it.next().and_then(|x| x.parse().ok()).unwrap_or(1);
@@ -160,7 +161,7 @@ pub fn run_case(out: &mut Out, case: &Case) {
                 Ok(_) => "acc".to_string(),
                 Err(e) => match e.code() {
                     ErrorCode::Duplicate => "dup".to_string(),
-                    ErrorCode::InvalidSignature | ErrorCode::NoSession => "noauth".to_string(),
+                    ErrorCode::InvalidSignature | ErrorCode::NoSession | ErrorCode::InvalidData => "noauth".to_string(),
                     c => format!("err:{:?}", c),
                 },
             })
@@ -170,12 +171,23 @@ pub fn run_case(out: &mut Out, case: &Case) {
             Ok(Err(e)) => format!("err:{:?}", e.code()),
             Err(_) => "panic".to_string(),
         };
-        // the ephemeral group sessions (each holding an accept-pending exchange) would fill the
-        // table; drop them so that every message is judged by the counter store alone
+        // The ephemeral group sessions (each holding accept-pending exchanges) would fill the table.
+        // In even cases drop them after every message, so that each message takes the
+        // session-creating path; in odd cases keep them alive (dropping all only when the table
+        // is nearly full), so that follow-up messages of a sender are matched to its live
+        // ephemeral session first - both paths must consult the per-sender counter store.
+        // (A kept session accumulates one accept-pending exchange per message and has room for
+        // MAX_EXCHANGES = 5 only; sessions created by control messages are not kept: control and
+        // data counters are separate spaces and the property says nothing about their mix.)
+        kept += 1;
         matter.with_state(|st| {
-            let ids: std::vec::Vec<u32> = st.verif_sessions_mut().iter().map(|s| s.id()).collect();
-            for id in ids {
-                st.verif_sessions_mut().remove(id);
+            let n = st.verif_sessions_mut().iter().count();
+            if case.id % 2 == 0 || n >= 10 || kind == "c" || kept >= 4 {
+                kept = 0;
+                let ids: std::vec::Vec<u32> = st.verif_sessions_mut().iter().map(|s| s.id()).collect();
+                for id in ids {
+                    st.verif_sessions_mut().remove(id);
+                }
             }
         });
         out.stat(&format!("gg_{}_{}", kind, v.split(':').next().unwrap_or("")), 1);
